@@ -391,10 +391,25 @@ static void dump_tx(rec_t *r, FILE *o, htp_tx_t *tx, size_t slot) {
     }
     fputc('}', o);
 }
+static long max_value_len(htp_table_t *t) {
+    long m = 0;
+    if (t) for (size_t i = 0, n = htp_table_size(t); i < n; i++) { htp_header_t *h = htp_table_get_index(t, i, NULL); if (h && h->value && (long) bstr_len(h->value) > m) m = (long) bstr_len(h->value); }
+    return m;
+}
 static void dump_final(rec_t *r) {
     htp_connp_t *g = r->connp;
-    fprintf(r->out, "{\"e\":\"Final\",\"pipelined\":%s,\"conn_flags\":%d,\"txs\":[", (g->conn->flags & HTP_CONN_PIPELINED) ? "true" : "false", (int) g->conn->flags);
-    for (size_t i = 0, n = htp_list_size(g->conn->transactions); i < n && i < MAXTXS; i++) {
+    /* longest header value held by any transaction (C10: folded / repeated header caps); dump=2 gives only this summary */
+    long mq = 0, ms = 0;
+    for (size_t i = 0, n = htp_list_size(g->conn->transactions); i < n; i++) {
+        htp_tx_t *tx = htp_list_get(g->conn->transactions, i);
+        if (tx == NULL) continue;
+        long a = max_value_len(tx->request_headers), b = max_value_len(tx->response_headers);
+        if (a > mq) mq = a;
+        if (b > ms) ms = b;
+    }
+    fprintf(r->out, "{\"e\":\"Final\",\"pipelined\":%s,\"conn_flags\":%d,\"maxqv\":%ld,\"maxsv\":%ld,\"light\":%s,\"txs\":[", (g->conn->flags & HTP_CONN_PIPELINED) ? "true" : "false", (int) g->conn->flags,
+            mq, ms, r->dump == 2 ? "true" : "false");
+    for (size_t i = 0, n = htp_list_size(g->conn->transactions); r->dump != 2 && i < n && i < MAXTXS; i++) {
         if (i) fputc(',', r->out);
         dump_tx(r, r->out, htp_list_get(g->conn->transactions, i), i);
     }
